@@ -143,7 +143,7 @@ def expected_backups(exp, names, cfg, nseries, first=0):
                 lines, md = pm.t[f]
                 out[key] = (b''.join(l + b'\n' for l in lines), 0o644 if md is None else md)
             else:
-                out[key] = (b'', 0o644)
+                out[key] = (b'', None)   # a zero-length placeholder for "did not exist": its mode carries no meaning
     return out
 
 
@@ -163,6 +163,9 @@ def oracle_c08(m0, series, cfg, o, after, exp, names, first=0):
         v.append((c, 'applied-patches', witness(m0, series, cfg, {'expected': names[:first + exp['k']], 'observed': applied})))
     gotb = {p: x for p, x in pc.items() if p != '.pc/applied-patches'}
     wantb = expected_backups(exp, names, cfg, len(series), first)
+    for p_, (data_, md_) in list(wantb.items()):
+        if md_ is None:
+            wantb[p_] = (data_, gotb[p_][1] if (p_ in gotb and gotb[p_][0] == b'') else 0o644)
     if gotb != wantb:
         d = diff_paths(gotb, wantb)
         v.append((c, 'backup-files', witness(m0, series, cfg, {'expected': {p: [common.b2s(wantb[p][0]), oct(wantb[p][1])] if p in wantb else None for p in d[:4]},
